@@ -188,6 +188,11 @@ PairsCoalescingAt(par, A, B, u) ==
 PairCoal(ts, sets, idx, a, b, u) ==
   LET S == AllSets(sets) IN Sum(Cells(a, b), LAMBDA x : PairsCoalescingAt(ParentAt(ts, x), S[idx[1] + 1], S[idx[2] + 1], u))
 
+\* span_normalise: divided by the span of non-missing sequence in the window, i.e. of the cells whose tree has at least one edge
+NonMissing(ts, a, b) == Cardinality({x \in Cells(a, b) : NumEdgesIn(ParentAt(ts, x)) > 0})
+PairCoalNormOK(ts, sets, idx, a, b, u, obs) ==
+  LET d == NonMissing(ts, a, b) IN IF d = 0 THEN obs = <<0, 1>> ELSE RatEq(obs, PairCoal(ts, sets, idx, a, b, u), d)
+
 \* ---- Robinson-Foulds and Kendall-Colijn distances between two trees of one tree sequence ------
 Clades(ts, par) == {Desc(par, u) \cap SamplesOf(ts) : u \in NodesOf(ts)} \ {{}}
 \* only nodes of the tree (reachable from its root) define clades
